@@ -171,7 +171,7 @@ class ApiRig:
         self.before: list[list[str]] = []  # snapshot before each command
         self.marks: list[int] = []  # number of reply lines written before each command
         self.written: list[str] = []
-        self.parse_log: list[tuple] = []  # (fn, action, words, result)
+        self.parse_log: list[tuple] = []  # (fn, action, words, result, index of the command being executed)
         self.reply_bytes = b''
         self._install_observers()
         self.initial_watchdogs = self._watchdog_state()
@@ -194,9 +194,9 @@ class ApiRig:
             try:
                 routes = call()
             except Exception:
-                self.parse_log.append((fn, ACTIONS.get(action, 9), command.split(), None))
+                self.parse_log.append((fn, ACTIONS.get(action, 9), command.split(), None, len(self.commands) - 1))
                 raise
-            self.parse_log.append((fn, ACTIONS.get(action, 9), command.split(), self._proutes(routes)))
+            self.parse_log.append((fn, ACTIONS.get(action, 9), command.split(), self._proutes(routes), len(self.commands) - 1))
             return routes
 
         for name, fn in PARSERS.items():
@@ -216,7 +216,7 @@ class ApiRig:
 
         def group_parse(api_, command, action='announce'):
             routes = self._orig_group_parse(api_, command, action)
-            self.parse_log.append((6, ACTIONS.get(action, 9), command.split(), self._proutes(routes)))
+            self.parse_log.append((6, ACTIONS.get(action, 9), command.split(), self._proutes(routes), len(self.commands) - 1))
             return routes
 
         group_cmd._parse_routes = group_parse
